@@ -189,6 +189,100 @@ def _c09_case(text, name, via_rpc, preemptions, env=None):
     return case
 
 
+NS_TOP = """
+version: '2.0'
+top:
+  output:
+    got: <% $.get(got, none) %>
+  tasks:
+    t1:
+      workflow: mid
+      publish:
+        got: <% task().result %>
+"""
+NS_MID = """
+version: '2.0'
+mid:
+  output:
+    m: <% $.get(m, none) %>
+  tasks:
+    m1:
+      workflow: leaf
+      publish:
+        m: <% task().result %>
+"""
+NS_LEAF = """
+version: '2.0'
+leaf:
+  output:
+    which: @@WHICH@@
+  tasks:
+    l1:
+      action: std.noop
+"""
+
+
+def _ns_case(via_rpc):
+    """definitions spread over the caller's namespace and the default one:
+    every descendant records the CALLER's namespace and resolves its own
+    sub-workflows there first"""
+    def case():
+        from vt.world import World
+        from mistral_lib import actions as ml
+        sig = 'C09.ns:%s' % ('rpc' if via_rpc else 'inproc')
+        where = {}
+        defs = []
+        for name, text in (('top', NS_TOP), ('mid', NS_MID)):
+            where[name] = choice('ns_' + name, ['ns', 'default'])
+            defs.append((text, 'ns' if where[name] == 'ns' else ''))
+        where['leaf'] = choice('ns_leaf', ['ns', 'default', 'both'])
+        if where['leaf'] in ('ns', 'both'):
+            defs.append((NS_LEAF.replace('@@WHICH@@', 'leaf_in_ns'), 'ns'))
+        if where['leaf'] in ('default', 'both'):
+            defs.append((NS_LEAF.replace('@@WHICH@@', 'leaf_in_default'),
+                         ''))
+        w = World(defs, conf={('engine', 'start_subworkflows_via_rpc'):
+                              via_rpc})
+        with w:
+            wid = w.start('top', {}, wf_namespace='ns')
+            assume(wid is not None)
+            w.run(result_of=lambda ev: ml.Result(data='ok'))
+            reach('ran')
+            wfs, tasks = _tree(w)
+            root = wfs[wid]
+            info = {'where': where, 'signature': sig,
+                    'executions': sorted(
+                        (x['workflow_name'], x['state'],
+                         (x['params'] or {}).get('namespace'),
+                         x['workflow_namespace'])
+                        for x in wfs.values())}
+
+            def inf(s_, **kw):
+                d = dict(info)
+                d.update(kw)
+                d['signature'] = sig + ':' + s_
+                return d
+            check(root['state'] == 'SUCCESS' and len(wfs) == 3,
+                  'nested-run-did-not-finish', inf('final'))
+            for x in wfs.values():
+                check((x['params'] or {}).get('namespace') == 'ns',
+                      'namespace-not-propagated',
+                      inf('namespace', wf=x['workflow_name']))
+                check(x['root_execution_id'] in (None, wid) and
+                      (x['id'] == wid or x['root_execution_id'] == wid),
+                      'root-execution-id-wrong', inf('root'))
+            if where['mid'] == 'default':
+                reach('fallback-to-default')
+            want = 'leaf_in_ns' if where['leaf'] in ('ns', 'both') \
+                else 'leaf_in_default'
+            if where['leaf'] == 'both':
+                reach('leaf-in-both')
+            check(root['output'] == {'got': {'m': {'which': want}}},
+                  'sub-workflow-resolved-in-the-wrong-namespace',
+                  inf('resolution', output=root['output'], want=want))
+    return case
+
+
 def _collide_case(key):
     def case():
         from vt.world import World
@@ -237,7 +331,9 @@ def _collide_case(key):
     bounds={'quick': '3-level nesting (top -> mid -> leaf) and with-items '
                      'over a sub-workflow (2 items); every action outcome '
                      'symbolic; sub-workflows started in-process and through '
-                     'the message bus; environment given at the root; <= 1 '
+                     'the message bus; environment given at the root; the '
+                     'three definitions placed by the solver in the '
+                     "caller's namespace, the default one or both; <= 1 "
                      'out-of-order delivery',
             'thorough': '<= 2 out-of-order deliveries'},
     stubs=['minidb', 'QueueRPC', 'FakeScheduler', 'FakeExecutor',
@@ -259,6 +355,9 @@ def c09_e(ctx):
         yield Case('items/%s' % ('rpc' if via else 'inproc'),
                    _c09_case(ITEMS, 'items', via, k),
                    needed=['quiescent', 'has-child'])
+        yield Case('namespaces/%s' % ('rpc' if via else 'inproc'),
+                   _ns_case(via),
+                   needed=['ran', 'fallback-to-default', 'leaf-in-both'])
 
 
 @obligation(
